@@ -35,3 +35,31 @@ package rlwe
 //@   ensures implies(result == nil, forall(k, 0, len(logP), 0 < logP[k] && logP[k] <= 61))
 //@   loop 0 invariant 0 <= i && i <= len(logQ) && forall(k, 0, i, 0 < logQ[k] && logQ[k] <= 60)
 //@   loop 1 invariant 0 <= i && i <= len(logP) && forall(k, 0, i, 0 < logP[k] && logP[k] <= 61)
+
+// ---- frame contracts (property C09) ----
+//@ owned Evaluator EvaluatorBuffers BasisExtender Decomposer
+//@ frame Evaluator.* inputs=auto
+
+// ---- copy constructors (property C10) ----
+//@ copy Evaluator.ShallowCopy
+//@   shared params EvaluationKeySet automorphismIndex Decomposer
+//@   fresh EvaluatorBuffers
+//@   copied BasisExtender
+
+//@ copy Evaluator.WithKey
+//@   shared params EvaluatorBuffers BasisExtender Decomposer
+//@   rebound EvaluationKeySet=evk
+//@   fresh automorphismIndex
+
+//@ copy Decryptor.ShallowCopy
+//@   shared params ringQ sk
+//@   fresh buff
+
+//@ copy Decryptor.WithKey
+//@   shared params ringQ
+//@   fresh buff
+//@   rebound sk=sk
+
+//@ copy RingPackingEvaluator.ShallowCopy
+//@   shared RingPackingEvaluationKey XPow2NTT XInvPow2NTT
+//@   fresh Evaluators
